@@ -14,7 +14,7 @@ import lxml.etree as LE
 
 # p3's URI extends p1's: a wildcard test that compares URIs by prefix confuses the two
 NS_POOL = {'p1': 'urn:a', 'p2': 'urn:b', 'p3': 'urn:ab', 'd': 'urn:d'}
-TAGS = ['a', 'b', 'c', 'x']
+TAGS = ['a', 'b', 'ca', 'c', 'x']      # 'ca' ends with another tag ('a'): suffix tests of names
 PI_TARGETS = ['pi', 'tgt', 'exp', 'map', 'text', 'if', 'xml-stylesheet', 'node', 'item', 'a', 'b']   # 'a', 'b' are element tags too
 TEXTS = ['t', 'u', 'tt', ' ', 'x y', '1', '42', 'a&b', '<', "q'\"", '\n ', 'é', '\U0001F600z']
 
